@@ -38,6 +38,7 @@ func replayHist(line string) []Case {
 	// replay lines are full driver lines; the history object is only needed for the mapper's tables
 	f := fields(line)
 	h := &hist{cfg: f["cfg"], ext: map[string][]string{}}
+	fmt.Sscan(f["bias"], &h.bias)
 	for _, t := range strings.Split(f["tables"], ";") {
 		if t == "" {
 			continue
